@@ -81,6 +81,9 @@ def run(facts, rep, tier, ctx):
     wa_ = World(facts, True)
     if wa_.present():
         c04.session_start_rules(facts, rep, wa_, D, "R14.6/R14.5s")
+        # (create starts empty on the async physical backend too: exactly open:create+trunc+write)
+        from .c10 import _Prefixed as _Pf14
+        physrules.table_o_shape(facts, _Pf14(rep, "R14.6"), "R14.1p", wa_)
     # ... of the bytes the file has: opening an append handle copies them and leaves the stored entry alone (a handle that
     # takes the bytes out leaves an empty file behind for every other handle opened meanwhile)
     from . import c01 as _c01
